@@ -313,6 +313,17 @@ pub struct GenCfg {
     pub preload: (usize, usize),
     /// append a draining match at the end of the history
     pub final_drain: bool,
+    /// scale tier this configuration was stretched to ("" = the mode as written)
+    pub scale: &'static str,
+    /// first timestamp of the increasing mode (stretched to just below 2^41 / 2^48 / 2^53 / 2^63 /
+    /// 2^64 for one case in 8, so that a history straddles the boundary)
+    pub ts_base: u64,
+    /// multiplier of every generated quantity (1, or a mid magnitude for one case in 8: between
+    /// the small values of the ordinary modes and the 2^32.. values of the big mode)
+    pub qscale: u64,
+    /// level price beyond 2^53 (one short-history case in 16); the quantity supplied to such a
+    /// level is kept so small that quantity x price still fits in 64 bits
+    pub high_price: Option<u64>,
 }
 
 impl GenCfg {
@@ -335,7 +346,67 @@ impl GenCfg {
             big: false,
             preload: (0, 3),
             final_drain: false,
+            scale: "",
+            ts_base: 1_000,
+            qscale: 1,
+            high_price: None,
         }
+    }
+
+    /// Scale tiers, orthogonal to the modes: one case in 16 starts from 33-200 resting orders
+    /// (past a 31-slot queue block, past the map's first growth steps), one in 256 from 260-1100
+    /// (past 2^8, 2^9, 2^10, 1000), one in 256 runs 1500-4000 operations on a small level.  The
+    /// tier is a function of (seed, case) alone, so a replay regenerates the same history.
+    pub fn scaled(&self, seed: u64, case: u64) -> GenCfg {
+        let mut c = self.clone();
+        if self.big || self.scale == "fixed" {
+            return c;
+        }
+        let mut r = Rng::derive(seed ^ 0x5ca1_e5ca_1e, case);
+        if r.chance(1, 8) {
+            c.ts_base = *r.pick(&[(1u64 << 41) - 35, (1 << 48) - 35, (1 << 53) - 35, (1 << 63) - 35, u64::MAX - 200_000]);
+        }
+        if self.len.1 <= 80 && r.chance(1, 16) {
+            c.high_price = Some(*r.pick(&[(1u64 << 53) + 1, (1 << 53) + 2, (1 << 54) + 3, (1 << 56) - 1]));
+            c.qmax = c.qmax.min(6);
+            c.scale = "level price beyond 2^53";
+            return c;
+        }
+        let mid = r.chance(1, 8);
+        let tier = if mid { 255 } else { r.below(256) };
+        if mid {
+            // (not combined with the wide tiers: hundreds of layered orders with thousands of
+            // replenishment rounds each would exceed the step budget of a legitimate sweep)
+            c.qscale = *r.pick(&[7u64, 50, 100, 1_000, 65_536, 1 << 27]);
+            c.scale = "mid-magnitude quantities";
+        }
+        match tier {
+            0 => {
+                let n = *r.pick(&[260usize, 300, 511, 512, 513, 700, 999, 1000, 1001, 1023, 1024, 1025, 1100]);
+                c.preload = (n, n);
+                c.max_resting = n + 40;
+                c.len = (c.len.0.min(20), c.len.1.min(40));
+                c.scale = "xwide(260-1100 resting)";
+            }
+            1..=16 => {
+                let n = match r.below(4) {
+                    0 => *r.pick(&[31usize, 32, 33, 63, 64, 65, 99, 100, 101, 127, 128, 129]),
+                    _ => r.range(33, 200) as usize,
+                };
+                c.preload = (n, n);
+                c.max_resting = n + 30;
+                c.len = (c.len.0.min(30), c.len.1.min(80));
+                c.scale = "wide(31-200 resting)";
+            }
+            17 => {
+                c.len = (1500, 9000);
+                c.max_resting = c.max_resting.min(6);
+                c.preload = (0, 3);
+                c.scale = "marathon(1500-9000 operations)";
+            }
+            _ => {}
+        }
+        c
     }
 }
 
@@ -366,6 +437,8 @@ impl Gen {
     pub fn new(cfg: GenCfg, mut rng: Rng) -> Self {
         let price = if cfg.big {
             1
+        } else if let Some(p) = cfg.high_price {
+            p
         } else {
             *rng.pick(&[1u64, 2, 7, 100, 101, 9_999, 10_000])
         };
@@ -387,23 +460,29 @@ impl Gen {
 
     fn qty(&mut self) -> u64 {
         if self.cfg.big {
-            let base = *self.rng.pick(&[1u64 << 32, 1 << 53, (1 << 53) + 1, 1 << 59, (1 << 60) - 1, 1 << 60]);
+            let base = *self.rng.pick(&[1u64 << 32, 1 << 53, (1 << 53) + 1, 1 << 59, (1 << 60) - 1, 1 << 60, 1 << 63, (1 << 63) + 1_000]);
             return base;
         }
         if self.rng.below(100) < self.cfg.zero_pct as u64 {
             return 0;
         }
-        if self.rng.chance(2, 3) {
+        let q = if self.rng.chance(2, 3) {
             self.rng.range(1, 10.min(self.cfg.qmax))
         } else {
             self.rng.range(1, self.cfg.qmax)
+        };
+        if self.cfg.qscale > 1 {
+            // not only multiples of the scale
+            q * self.cfg.qscale + if self.rng.chance(1, 2) { self.rng.below(self.cfg.qscale) } else { 0 }
+        } else {
+            q
         }
     }
 
     fn ts(&mut self) -> u64 {
         self.ts_ctr += 1;
         match self.cfg.ts {
-            TsMode::Increasing => 1_000 + 10 * self.ts_ctr,
+            TsMode::Increasing => self.cfg.ts_base.saturating_add(10 * self.ts_ctr),
             TsMode::Ties => 1_000 + self.rng.below(3),
             TsMode::NonMonotone => self.rng.range(0, 50),
         }
@@ -439,6 +518,13 @@ impl Gen {
                 }
             } else if self.rng.below(100) < self.cfg.hid_zero_pct.map(|x| x as u64).unwrap_or(self.cfg.zero_pct as u64 + 5) {
                 0
+            } else if self.cfg.qscale > 1 {
+                // mid magnitudes: keep the number of replenishment rounds of a legitimate match
+                // small (a tranche can shrink to 1): display and hidden part at most a few thousand,
+                // hidden parts close to the display (just above, within 1 %, double, half)
+                v = v.min(1_500).max(1);
+                let pick = *self.rng.pick(&[1u64, v / 2, v, v + 1, v + v / 150 + 1, v + v / 100, 2 * v + 3, 200, 1_000]);
+                pick.clamp(1, 2_000)
             } else {
                 *self.rng.pick(&[1u64, 2, 3, 5, 8, 13, 21, 79, 80, 81, 200])
             }
@@ -446,7 +532,17 @@ impl Gen {
             0
         };
         let sup = v as u128 + h as u128;
-        if self.supplied + sup > (1u128 << 62) {
+        // everything ever supplied to one level stays below 2^64 (the statistics accumulate it);
+        // the big mode goes right up to that, the others keep well away
+        let limit = if self.cfg.big {
+            (1u128 << 64) - (1u128 << 40)
+        } else if self.cfg.high_price.is_some() {
+            // a quarter of what fits, the rest is headroom for amendments upwards
+            (u64::MAX / self.price / 4) as u128
+        } else {
+            1u128 << 62
+        };
+        if self.supplied + sup > limit {
             return None;
         }
         self.supplied += sup;
@@ -526,10 +622,24 @@ impl Gen {
         if self.cfg.big {
             // keep tranches of layered orders within a factor 8 of their hidden part
             let h = obs.find(model::key(id)).map(model::hid).unwrap_or(0);
-            return (self.qty() / 2).max(h / 8);
+            let q = (self.qty() / 2).max(h / 8);
+            // an amendment upwards supplies quantity too
+            if self.supplied + q as u128 > (1u128 << 64) - (1u128 << 40) {
+                return (h / 8).max(1);
+            }
+            self.supplied += q as u128;
+            return q;
         }
         if self.rng.below(100) < (self.cfg.zero_pct as u64 * 2).min(40) {
             0
+        } else if self.cfg.qscale > 1 {
+            let layered = obs.find(model::key(id)).map(|o| model::hid(o) > 0).unwrap_or(false);
+            let q = self.rng.range(1, self.cfg.qmax + 5) * self.cfg.qscale + self.rng.below(self.cfg.qscale);
+            if layered {
+                q.min(1_500)
+            } else {
+                q
+            }
         } else {
             self.rng.range(1, self.cfg.qmax + 5)
         }
@@ -554,6 +664,11 @@ impl Gen {
             return (q.min(u64::MAX as u128) as u64).max(1);
         }
         let cap = |x: u128| -> u64 { x.min(u64::MAX as u128 / 2).max(1) as u64 };
+        if self.rng.chance(1, 40) {
+            // far more than the level holds: u64::MAX and the values where products with the
+            // price or conversions to other number types go wrong
+            return *self.rng.pick(&[u64::MAX, u64::MAX - 1, u64::MAX / 2 + 1, 1 << 63, (1 << 53) + 1, 1 << 32, u64::MAX / 7]);
+        }
         match self.rng.below(10) {
             0..=3 => {
                 // small: around one order's display
